@@ -96,7 +96,7 @@ def correspondence(ctx):
 
 
 def load(inp):
-    return sound.load_score(inp['score'], inp.get('amps'))
+    return sound.load_score(inp['score'], inp.get('amps'), plain=bool(inp.get('plain_rests')))
 
 
 def in_window(s):
@@ -162,7 +162,7 @@ def oracle(ctx):
     for _ in range(ctx.n(500, 6000)):
         s = rand_score(ctx, referenced=True)
         todo.append({'score': str(s), 'tempo': ctx.rng.choice(TEMPI), 'amps': sound.amps_of(s),
-                     'tempo_kind': ctx.rng.choice(TEMPO_KINDS)})
+                     'tempo_kind': ctx.rng.choice(TEMPO_KINDS), 'plain_rests': ctx.rng.random() < 0.3})
     for inp in todo:
         try:
             s = load(inp)
